@@ -214,14 +214,19 @@ class Section(Entity):
     @link.setter
     def link(self, id_or_sec):
         if id_or_sec is None:
-            self._h5group.delete("link")
-        if isinstance(id_or_sec, Section):
-            sec = id_or_sec
+            if "link" in self._h5group:
+                self._h5group.delete("link")
         else:
-            rootsec = Section(self.file, self, self._h5group.h5root)
-            sec = rootsec.find_sections(filtr=lambda x: x.id == id_or_sec)
-
-        self._h5group.create_link(sec, "link")
+            if isinstance(id_or_sec, Section):
+                sec = id_or_sec
+            else:
+                found = self.file.find_sections(
+                    filtr=lambda x: x.id == id_or_sec
+                )
+                if not found:
+                    raise KeyError("No section with id {} in file".format(id_or_sec))
+                sec = found[0]
+            self._h5group.create_link(sec, "link")
         if self.file.auto_update_timestamps:
             self.force_updated_at()
 
